@@ -12,6 +12,9 @@
      (C16_every_ordering_of_a_cube_is_reordered) and carried by the lock step + the definition-based oracle on every
      proper cube otherwise.  The two former counterexamples (invalid handle stored / indexed; a closed six-quad surface
      that is not a cube accepted) are rejected now: Examples C16_invalid_handle_list_rejected, C16_non_cube_surface_rejected.
+   * since the fix "checked hex add_cell must reject cells without eight distinct vertices" both topology-checked forms of add_cell
+     additionally require exactly eight distinct vertices (HexModel.v hex_add_cell / hex_add_cell_v); the theorems about it and the
+     full hex_vertices / layout statements are in Props/Properties_C15_C16_full.v.
    * hex_vertices: first four proved for every cell whose first halfface has four different halfedges; the full cube
      pattern is decided on the canonical cube and carried by the correspondence + oracle otherwise (`_partial`). *)
 From Coq Require Import ZArith List.
